@@ -332,13 +332,13 @@ pub const ARRAY_LENS: [usize; 9] = [1, 16, 32, 64, 4095, 4096, 4097, 8192, 8193]
 pub const BYTES_LENS: [usize; 10] = [0, 1, 16, 32, 64, 4095, 4096, 4097, 8192, 8193];
 
 /// constructors; each returns Result (the constructor's own Result) — a panic propagates to the caller's guard
-pub const HB_CTORS: [&str; 4] = ["from_slice_into_locked", "from_slice_into_readonly_locked", "new_locked+resize", "plain.mlock"];
-pub const ARR_CTORS: [&str; 7] = ["from_slice_into_locked", "from_slice_into_readonly_locked", "new_locked+copy", "plain.mlock", "gen_locked+copy", "StackByteArray::mlock", "StackByteArray::mprotect_readonly"];
+pub const HB_CTORS: [&str; 6] = ["from_slice_into_locked", "from_slice_into_readonly_locked", "new_locked+resize", "plain.mlock", "Locked::default+resize", "Locked::new_bytes+resize"];
+pub const ARR_CTORS: [&str; 9] = ["from_slice_into_locked", "from_slice_into_readonly_locked", "new_locked+copy", "plain.mlock", "gen_locked+copy", "StackByteArray::mlock", "StackByteArray::mprotect_readonly", "Locked::new_byte_array+copy", "Locked::gen+copy"];
 
 pub fn ctor_returns_result(name: &str) -> bool {
     // every listed constructor's *first* (locking) step returns Result; "new_locked+resize" performs a
     // locked resize afterwards whose signature cannot report an error
-    name != "new_locked+resize"
+    !matches!(name, "new_locked+resize" | "Locked::default+resize" | "Locked::new_bytes+resize" | "Locked::new_byte_array+copy" | "Locked::gen+copy")
 }
 
 pub fn construct_hb(ctor: &str, src: &[u8]) -> Result<Box<dyn DynRegion>, String> {
@@ -348,6 +348,18 @@ pub fn construct_hb(ctor: &str, src: &[u8]) -> Result<Box<dyn DynRegion>, String
         "from_slice_into_readonly_locked" => HeapBytes::from_slice_into_readonly_locked(src).map(|p| Box::new(R::RoL(p)) as Box<dyn DynRegion>).map_err(|e| e.to_string()),
         "new_locked+resize" => {
             let mut p = HeapBytes::new_locked().map_err(|e| e.to_string())?;
+            p.resize(src.len(), 0);
+            p.as_mut_slice().copy_from_slice(src);
+            Ok(Box::new(R::RwL(p)))
+        }
+        "Locked::default+resize" => {
+            let mut p = Locked::<HeapBytes>::default();
+            p.resize(src.len(), 0);
+            p.as_mut_slice().copy_from_slice(src);
+            Ok(Box::new(R::RwL(p)))
+        }
+        "Locked::new_bytes+resize" => {
+            let mut p = <Locked<HeapBytes> as NewBytes>::new_bytes();
             p.resize(src.len(), 0);
             p.as_mut_slice().copy_from_slice(src);
             Ok(Box::new(R::RwL(p)))
@@ -387,6 +399,16 @@ macro_rules! construct_arr {
             "StackByteArray::mlock" => {
                 let s = StackByteArray::<$n>::try_from(src).map_err(|e| e.to_string())?;
                 s.mlock().map(|p| Box::new(R::RwL(p)) as Box<dyn DynRegion>).map_err(|e| e.to_string())
+            }
+            "Locked::new_byte_array+copy" => {
+                let mut p = <Locked<HeapByteArray<$n>> as NewByteArray<$n>>::new_byte_array();
+                p.as_mut_slice().copy_from_slice(src);
+                Ok(Box::new(R::RwL(p)) as Box<dyn DynRegion>)
+            }
+            "Locked::gen+copy" => {
+                let mut p = <Locked<HeapByteArray<$n>> as NewByteArray<$n>>::gen();
+                p.as_mut_slice().copy_from_slice(src);
+                Ok(Box::new(R::RwL(p)) as Box<dyn DynRegion>)
             }
             _ => {
                 let s = StackByteArray::<$n>::try_from(src).map_err(|e| e.to_string())?;
